@@ -15,6 +15,8 @@ import (
 
 	"github.com/bio-routing/bio-rd/protocols/bgp/packet"
 	"github.com/bio-routing/bio-rd/route"
+	"github.com/bio-routing/bio-rd/routingtable/filter"
+	"github.com/bio-routing/bio-rd/routingtable/filter/actions"
 	"github.com/bio-routing/bio-rd/zzverif/vsched"
 )
 
@@ -28,7 +30,13 @@ func zvSessCfgs() []zvSessCfg {
 		{Name: "ebgp-active", A: zvPeerOpts{Addr: 9, Hold: 3 * time.Second}},
 		{Name: "ibgp-rrclient-active", A: zvPeerOpts{Addr: 9, Hold: 3 * time.Second, IBGP: true, RRClient: true}},
 		{Name: "ebgp-ipv6-addpath", A: zvPeerOpts{Addr: 9, Hold: 3 * time.Second, IPv6: true, AddPathRX: true}},
+		// an import policy that rewrites an attribute path equality looks at: what is withdrawn on teardown must be the rewritten path
+		{Name: "ebgp-import-sets-localpref", A: zvPeerOpts{Addr: 9, Hold: 3 * time.Second, Import: zvChainSetLocalPref(200)}},
 	}
+}
+
+func zvChainSetLocalPref(lp uint32) filter.Chain {
+	return filter.Chain{filter.NewFilter("set-lp", []*filter.Term{filter.NewTerm("t", nil, []actions.Action{actions.NewSetLocalPrefAction(lp), actions.NewAcceptAction()})})}
 }
 
 // events
